@@ -99,6 +99,11 @@ Lemma slice_step1 {A} a b (l : list A) : slice_list (Some a) (Some b) 1 l = Beat
 Proof. unfold slice_list. change (Z.to_nat 1) with 1%nat. rewrite every1. reflexivity. Qed.
 
 Definition goto_body : list stmt := for_body (f_body gen_goto).
+(* the callee `validate`: any [ext] that answers as the model does (BeatTie.v, Section Callees) *)
+Section Callees.
+Variable ext : string -> list bv -> out bv.
+Hypothesis Hval : forall r e, ext "validate"%string [VArrQ r; VArrQ e] = lift_unit (Beat.validate r e).
+Local Notation F := (BeatTie.F ext).
 Definition goto_env (ref est : list Q) (thr mu sg : bv) (be paired : list Q) (crit n pi wmin ni wmax biw off inc track tl ts sb eb : bv) : env :=
   [("reference_beats", VArrQ ref); ("estimated_beats", VArrQ est); ("goto_threshold", thr); ("goto_mu", mu); ("goto_sigma", sg);
    ("beat_error", VArrQ be); ("paired", VArrQ paired); ("goto_criteria", crit); ("n", n);
@@ -377,15 +382,15 @@ Definition lift_q (r : res Q) : out (list xval) := match r with Ok q => OK [Fin 
 Definition sres_floats (s : sres) : out (list xval) :=
   out_floats (match s with SNorm _ => OK VNone | SRet v => OK v | SExn e => EXN e | SUnm => UNM end).
 
-Theorem goto_tie : forall fexp ref est thr mu sigma p1 p2 p3,
-  out_eq (out_floats (run fexp gen_goto [VArrQ ref; VArrQ est; VFlt p1 (Fin thr); VFlt p2 (Fin mu); VFlt p3 (Fin sigma)]))
+Theorem goto_tie_gen : forall fexp ref est thr mu sigma p1 p2 p3,
+  out_eq (out_floats (runx ext fexp gen_goto [VArrQ ref; VArrQ est; VFlt p1 (Fin thr); VFlt p2 (Fin mu); VFlt p3 (Fin sigma)]))
          (lift_q (Beat.goto ref est thr mu sigma)).
 Proof.
-  intros. unfold run, run_fun. cbn [length f_params gen_goto Nat.eqb]. unfold exec_block.
+  intros. unfold runx, run_fun. cbn [length f_params gen_goto Nat.eqb]. unfold exec_block.
   rewrite (cut_at_for (f_body gen_goto)) at 1. rewrite run_block_app.
   remember (from_for (f_body gen_goto)) as rest eqn:Erest.
   unfold Beat.goto. cbn.
-  destruct (Beat.validate ref est) as [[]|e]; cbn; [|reflexivity].
+  rewrite Hval. destruct (Beat.validate ref est) as [[]|e]; cbn; [|reflexivity].
   destruct est as [|e0 et]; [cbn; repeat constructor|].
   cbn [length]. rewrite zof_S_eq0. cbn.
   destruct ref as [|r0 rt]; [cbn; repeat constructor|].
@@ -428,6 +433,12 @@ Proof.
     cbn. constructor; [exact Hq|constructor].
   - cbn. reflexivity.
 Qed.
+End Callees.
+Theorem goto_tie : forall fexp ref est thr mu sigma p1 p2 p3,
+  out_eq (out_floats (run fexp gen_goto [VArrQ ref; VArrQ est; VFlt p1 (Fin thr); VFlt p2 (Fin mu); VFlt p3 (Fin sigma)]))
+         (lift_q (Beat.goto ref est thr mu sigma)).
+Proof. exact (goto_tie_gen beat_ext beat_ext_val). Qed.
+Print Assumptions goto_tie_gen.
 Print Assumptions goto_tie.
 
 (* values observed on the real implementation for three inputs (10 reference beats; 11 estimates / the reference shifted
